@@ -573,10 +573,10 @@ Proof.
     + apply project_kids; auto.
     + intros E. destruct k; [reflexivity|discriminate].
     + intros E. destruct k as [|x k]; [contradiction E; reflexivity|].
-      cbn [proj_vol v_length v_dataoff].
+      unfold vol_buf_rel. cbn [proj_vol v_length v_dataoff].
       cbv beta iota delta [sv_vol_length sv_vol_dataoff sv_vol_path].
       assert (Hd : 0 <= v_dataoff h <= zlen b /\ zlen b <= v_length h) by lia.
-      unfold vol_buf_rel. rewrite zlen_zfirstn by lia.
+      rewrite zlen_zfirstn by lia.
       split; [lia|]. split; [lia|].
       unfold slice. rewrite zlen_zfirstn by lia.
       replace ((0 <=? 0) && (0 <=? v_dataoff h) && (v_dataoff h <=? v_dataoff h)) with true by lia.
